@@ -66,8 +66,14 @@ func (g *gen) container(ind string, depth int, ids *[]string, prefix string) {
 		default:
 			fmt.Fprintf(&g.sb, "%s%s: \"%s %d\" {\n%s  shape: %s\n", ind, id, strings.ToUpper(id[:1])+id[1:], i, ind, shapes[g.tp.Draw(len(shapes), "gen.shape")])
 			g.styleBlock(ind + "  ")
-			if g.tp.Chance(1, 5, "gen.class") {
-				fmt.Fprintf(&g.sb, "%s  class: [c1; c2]\n", ind)
+			if g.tp.Chance(1, 4, "gen.class") {
+				// a list of classes that set the same attributes, drawn with repetition:
+				// the order in which they are applied decides the result
+				var names []string
+				for k, m := 0, 2+g.tp.Draw(3, "gen.class.n"); k < m; k++ {
+					names = append(names, fmt.Sprintf("c%d", 1+g.tp.Draw(3, "gen.class.which")))
+				}
+				fmt.Fprintf(&g.sb, "%s  class: [%s]\n", ind, strings.Join(names, "; "))
 			}
 			if g.tp.Chance(1, 8, "gen.tooltip") {
 				fmt.Fprintf(&g.sb, "%s  tooltip: tip for %s\n", ind, id)
@@ -84,8 +90,19 @@ func (g *gen) container(ind string, depth int, ids *[]string, prefix string) {
 		if g.tp.Chance(1, 2, "gen.elabel") {
 			fmt.Fprintf(&g.sb, ": %s", words[g.tp.Draw(len(words), "gen.word")])
 		}
-		if g.tp.Chance(1, 5, "gen.estyle") {
-			fmt.Fprintf(&g.sb, " {\n%s  style.stroke: %s\n%s  style.animated: true\n%s  source-arrowhead: 1\n%s  target-arrowhead: * {shape: diamond}\n%s}", ind, colors[g.tp.Draw(len(colors), "gen.color")], ind, ind, ind, ind)
+		if g.tp.Chance(1, 6, "gen.eclass") {
+			fmt.Fprintf(&g.sb, " {\n%s  class: [c%d; c%d; c%d]\n%s}", ind, 1+g.tp.Draw(3, "gen.class.which"), 1+g.tp.Draw(3, "gen.class.which"), 1+g.tp.Draw(3, "gen.class.which"), ind)
+		} else if g.tp.Chance(1, 4, "gen.estyle") {
+			heads := []string{"triangle", "arrow", "diamond", "circle", "box", "cross", "cf-one", "cf-one-required", "cf-many", "cf-many-required", "unfilled-triangle"}
+			head := func() string {
+				h := heads[g.tp.Draw(len(heads), "gen.head")]
+				f := ""
+				if g.tp.Chance(1, 2, "gen.head.filled") {
+					f = fmt.Sprintf("; style.filled: %v", g.tp.Chance(1, 2, "gen.head.fill"))
+				}
+				return fmt.Sprintf("{shape: %s%s}", h, f)
+			}
+			fmt.Fprintf(&g.sb, " {\n%s  style.stroke: %s\n%s  style.animated: %v\n%s  source-arrowhead: 1 %s\n%s  target-arrowhead: * %s\n%s}", ind, colors[g.tp.Draw(len(colors), "gen.color")], ind, g.tp.Chance(1, 2, "gen.animated"), ind, head(), ind, head(), ind)
 		}
 		g.sb.WriteString("\n")
 	}
@@ -278,6 +295,14 @@ func (g *gen) RenderFeatures() {
 		}
 		g.sb.WriteString("pt0 -> pt0: self {\n  style.animated: true\n}\n")
 	}
+	if tp.Chance(1, 3, "rf.arrowheads") {
+		// every arrowhead shape once, filled at one end and unfilled at the other
+		heads := []string{"triangle", "arrow", "diamond", "circle", "box", "cross", "cf-one", "cf-one-required", "cf-many", "cf-many-required", "unfilled-triangle"}
+		flip := tp.Chance(1, 2, "rf.arrowheads.flip")
+		for i, h := range heads {
+			fmt.Fprintf(&g.sb, "ah%d -> ah%d: {\n  source-arrowhead: {shape: %s; style.filled: %v}\n  target-arrowhead: %d {shape: %s; style.filled: %v}\n}\n", i, i+1, h, flip, i, h, !flip)
+		}
+	}
 	if tp.Chance(1, 4, "rf.icons") {
 		g.sb.WriteString("ic1: {\n  icon: https://icons.terrastruct.com/essentials/004-picture.svg\n}\nic2: img {\n  shape: image\n  icon: https://icons.terrastruct.com/essentials/005-programmer.svg\n}\n")
 	}
@@ -299,8 +324,8 @@ func script(tp *tape.Tape, render bool) (string, map[string]string) {
 	if tp.Chance(1, 3, "gen.vars") {
 		g.sb.WriteString("vars: {\n  a: alpha-value\n  b: beta-value\n  c: {\n    d: nested\n  }\n  d2-config: {\n    pad: 20\n  }\n}\n")
 	}
-	if tp.Chance(1, 2, "gen.classes") {
-		g.sb.WriteString("classes: {\n  c1: {\n    style.fill: honeydew\n    style.stroke-width: 3\n  }\n  c2: {\n    style.bold: true\n    label: classy\n  }\n  c3: {\n    shape: hexagon\n  }\n}\n")
+	if tp.Chance(3, 4, "gen.classes") {
+		g.sb.WriteString("classes: {\n  c1: {\n    style.fill: honeydew\n    style.stroke: red\n    style.stroke-width: 3\n  }\n  c2: {\n    style.fill: lightblue\n    style.bold: true\n    label: classy\n  }\n  c3: {\n    shape: hexagon\n    style.fill: orange\n    style.stroke: green\n    style.stroke-width: 1\n  }\n}\n")
 	}
 	if tp.Chance(1, 4, "gen.direction") {
 		g.sb.WriteString("direction: " + []string{"right", "down", "left", "up"}[tp.Draw(4, "gen.dir")] + "\n")
